@@ -630,6 +630,109 @@ def wBlindRotationKeyCompressed (p : Profile) (s : St) (c : Cur) : Outcome Bytes
   let d ← wKeys (wGGLWECompressed p) aGGLWECompressed s ⟨c.f + 2, c.s, c.l⟩
   pure (a ++ d)
 
+/-! ### CircuitBootstrappingKey and BDDKey (poulpy-bin-fhe)
+
+Flat layout of a `CircuitBootstrappingKey`:
+  fields  `[dist.tag, dist.payload, brk.keys.len(), (base2k, dsize)·nb,
+            atk.len(), (gal_el, p, base2k, dsize)·na        -- HashMap entries in the writer's (sorted) order
+            tsk.keys.len(), (base2k, dsize)·nt]`
+  leaves  `nb` GGSW matrices, `na` automorphism-key matrices, `nt` GGLWE matrices.
+A `BDDKey` appends `[ks_glwe.is_some() as 0/1, (in, out, base2k, dsize) if some, (in, out, base2k, dsize)]`
+and the corresponding one or two matrices. -/
+
+/-- `self.atk.get_mut(&gal_el)`: index of the entry whose key is `gal` -/
+def findAtk (s : St) (base na gal : Nat) : Option Nat :=
+  (List.range na).find? (fun j => s.fields[base + 4 * j]? == some gal)
+
+/-- `for _ in 0..n { let gal_el = read_i64()?; let atk = self.atk.get_mut(&gal_el).ok_or(InvalidData)?; atk.read_from(reader)?; }`
+`ca` = cursor of the atk section (`ca.f` = field holding `atk.len()`) -/
+def rAtkLoop (ca : Cur) (na : Nat) : Nat → Rd St Unit
+  | 0 => Rd.pure ()
+  | k + 1 => do
+    let gal ← readU64
+    let s ← getS
+    match findAtk s (ca.f + 1) na gal with
+    | none => failWith "invalid"
+    | some j => do
+      rGLWEAutomorphismKey ⟨ca.f + 1 + 4 * j + 1, ca.s, ca.l + j⟩
+      rAtkLoop ca na k
+
+/-- cursor of the atk section / the tsk section / the end of a CircuitBootstrappingKey starting at `c` -/
+def cbtAtkCur (c : Cur) (nb : Nat) : Cur := ⟨c.f + 3 + 2 * nb, c.s, c.l + nb⟩
+def cbtTskCur (c : Cur) (nb na : Nat) : Cur := ⟨c.f + 3 + 2 * nb + 1 + 4 * na, c.s, c.l + nb + na⟩
+def cbtEndCur (c : Cur) (nb na nt : Nat) : Cur := ⟨c.f + 3 + 2 * nb + 1 + 4 * na + 1 + 2 * nt, c.s, c.l + nb + na + nt⟩
+
+/-- CircuitBootstrappingKey (circuit_bootstrapping/key.rs:314) -/
+def rCircuitBootstrappingKey (c : Cur) : Rd St Unit := do
+  rBlindRotationKey c                                   -- self.brk.read_from(reader)?
+  let nb ← getF (c.f + 2)
+  let n ← readU64                                       -- let n = reader.read_u64()? as usize
+  let na ← getF (cbtAtkCur c nb).f
+  if n ≠ na then failWith "invalid" else do             -- if n != self.atk.len()
+  rAtkLoop (cbtAtkCur c nb) na n
+  rGGLWEToGGSWKey (cbtTskCur c nb na)                   -- self.tsk.read_from(reader)
+
+/-- BDDKey (bdd_arithmetic/key.rs:269) -/
+def rBDDKey (c : Cur) : Rd St Unit := do
+  rCircuitBootstrappingKey c                            -- self.cbt.read_from(reader)?
+  let nb ← getF (c.f + 2)
+  let na ← getF (cbtAtkCur c nb).f
+  let nt ← getF (cbtTskCur c nb na).f
+  let e := cbtEndCur c nb na nt
+  let tag ← readU8                                      -- match reader.read_u8()?
+  let has ← getF e.f                                    -- self.ks_glwe.is_some()
+  if tag = 0 then
+    if has ≠ 0 then failWith "invalid"
+    else rGLWESwitchingKey ⟨e.f + 1, e.s, e.l⟩          -- self.ks_lwe.read_from(reader)
+  else if tag = 1 then
+    if has = 0 then failWith "invalid" else do
+    rGLWESwitchingKey ⟨e.f + 1, e.s, e.l⟩               -- ks_glwe.read_from(reader)?
+    rGLWESwitchingKey ⟨e.f + 5, e.s, e.l + 1⟩           -- self.ks_lwe.read_from(reader)
+  else failWith "invalid"
+
+def wAtk (p : Profile) (s : St) (c : Cur) : Outcome Bytes := do       -- write_i64(k); self.atk[&k].write_to(writer)
+  let g ← wF s 8 c.f
+  let d ← wGLWEAutomorphismKey p s ⟨c.f + 1, c.s, c.l⟩
+  pure (g ++ d)
+def aAtk (c : Cur) : Cur := ⟨c.f + 4, c.s, c.l + 1⟩
+
+def wCircuitBootstrappingKey (p : Profile) (s : St) (c : Cur) : Outcome Bytes := do
+  let a ← wBlindRotationKey p s c
+  match s.fields[c.f + 2]? with
+  | none => .err "shape"
+  | some nb =>
+    let ca := cbtAtkCur c nb
+    let n ← wF s 8 ca.f
+    match s.fields[ca.f]? with
+    | none => .err "shape"
+    | some na =>
+      let b ← wRep (wAtk p) aAtk s na ⟨ca.f + 1, ca.s, ca.l⟩
+      let t ← wKeys (wGGLWE p) aGGLWE s (cbtTskCur c nb na)
+      pure (a ++ n ++ b ++ t)
+
+def wBDDKey (p : Profile) (s : St) (c : Cur) : Outcome Bytes := do
+  let a ← wCircuitBootstrappingKey p s c
+  match s.fields[c.f + 2]? with
+  | none => .err "shape"
+  | some nb =>
+    match s.fields[(cbtAtkCur c nb).f]? with
+    | none => .err "shape"
+    | some na =>
+      match s.fields[(cbtTskCur c nb na).f]? with
+      | none => .err "shape"
+      | some nt =>
+        let e := cbtEndCur c nb na nt
+        match s.fields[e.f]? with
+        | none => .err "shape"
+        | some has =>
+          if has = 0 then do
+            let k ← wGLWESwitchingKey p s ⟨e.f + 1, e.s, e.l⟩
+            pure (a ++ [0] ++ k)
+          else do
+            let g ← wGLWESwitchingKey p s ⟨e.f + 1, e.s, e.l⟩
+            let k ← wGLWESwitchingKey p s ⟨e.f + 5, e.s, e.l + 1⟩
+            pure (a ++ [1] ++ g ++ k)
+
 /-! ### dispatch by type name (the names the harness and the orchestrator use) -/
 
 def origin : Cur := ⟨0, 0, 0⟩
@@ -652,6 +755,8 @@ def readerOf : String → Option (Rd St Unit)
   | "gglwe_to_ggsw_key_compressed" => some (rGGLWEToGGSWKeyCompressed origin)
   | "blind_rotation_key" => some (rBlindRotationKey origin)
   | "blind_rotation_key_compressed" => some (rBlindRotationKeyCompressed origin)
+  | "circuit_bootstrapping_key" => some (rCircuitBootstrappingKey origin)
+  | "bdd_key" => some (rBDDKey origin)
   | _ => none
 
 def writerOf (p : Profile) : String → Option (St → Outcome Bytes)
@@ -670,6 +775,8 @@ def writerOf (p : Profile) : String → Option (St → Outcome Bytes)
   | "gglwe_to_ggsw_key_compressed" => some (fun s => wKeys (wGGLWECompressed p) aGGLWECompressed s origin)
   | "blind_rotation_key" => some (fun s => wBlindRotationKey p s origin)
   | "blind_rotation_key_compressed" => some (fun s => wBlindRotationKeyCompressed p s origin)
+  | "circuit_bootstrapping_key" => some (fun s => wCircuitBootstrappingKey p s origin)
+  | "bdd_key" => some (fun s => wBDDKey p s origin)
   | _ => none
 
 end Ser
